@@ -132,6 +132,14 @@ def replay_static(ctx, states):
 # ---------------------------------------------------------------------------------------------
 # V: interface sweep
 
+def _table(ix):
+    '''the label table of an index as its array routes show it (a hierarchy answers iteration from its levels and values / shape / dtypes from a
+    table of its own: both are part of what a caller can observe)'''
+    return {'values_shape': list(ix.values.shape), 'shape': list(ix.shape), 'depth': ix.depth,
+            'dtypes': [P.enc_dtype(ix.values.dtype)] if ix.depth == 1 else [P.enc_dtype(x) for x in ix.dtypes.values],
+            'row0': P.enc_array(ix.values[0]) if ix.depth > 1 and len(ix) else []}
+
+
 def deep(obj):
     '''deep value snapshot of a container'''
     if isinstance(obj, sf.Frame):
@@ -140,14 +148,18 @@ def deep(obj):
         d['index_name'] = P.enc(obj.index.name)
         d['columns_name'] = P.enc(obj.columns.name)
         d['shape'] = list(obj.shape)
+        d['index_table'] = _table(obj.index)
+        d['columns_table'] = _table(obj.columns)
         return d
     if isinstance(obj, sf.Series):
         d = P.proj_series(obj)
         d['cls'] = type(obj).__name__
         d['index_name'] = P.enc(obj.index.name)
+        d['index_table'] = _table(obj.index)
         return d
     d = P.proj_index(obj)
     d['dtype'] = P.enc_dtype(obj.values.dtype) if obj.depth == 1 else [P.enc_dtype(x) for x in obj.dtypes.values]
+    d['table'] = _table(obj)
     return d
 
 
@@ -255,6 +267,8 @@ def sweep(ctx, max_calls):
         before = base_snapshot if fresh else {k: deep(v) for k, v in fx.items()}
         results = []
         outcome = 'ok'
+        changed_twin = None
+        twins = []
         try:
             member = getattr(obj, attr)
             results.append(member)
@@ -284,7 +298,14 @@ def sweep(ctx, max_calls):
                 ok = 0
                 for args in ctx.rng.sample(table_cache, len(table_cache)):
                     try:
-                        results.append(member(*args))
+                        if fresh and tname in ('frame_ih', 'ih'):
+                            # every attempt is the FIRST thing that touches a never-observed twin (an attempt that raises half way may already
+                            # have materialised the caches the next one would have met unset)
+                            fxa = fixtures(ctx.rng)
+                            twins.append(fxa)
+                            results.append(getattr(fxa[tname], attr)(*args))
+                        else:
+                            results.append(member(*args))
                         ok += 1
                         if ok >= 3:
                             break
@@ -330,7 +351,12 @@ def sweep(ctx, max_calls):
         flags = [bool(a.flags.writeable) for a in arrays]
         # a writeable array that aliases container data is the dangerous case: reported under its own clause
         alias = any(a.flags.writeable and any(np.shares_memory(a, o) for o in own if o.size and a.size) for a in arrays)
-        after = {k: deep(v) for k, v in fx.items()}
+        for fxa in twins:          # (after the results were grown: a grow-only result may own what the twin still shows)
+            snap = {k: deep(v) for k, v in fxa.items()}
+            if snap != base_snapshot:
+                changed_twin = snap
+                break
+        after = changed_twin if changed_twin is not None else {k: deep(v) for k, v in fx.items()}
         events.append({'id': len(events), 'kind': 'call', 'target': tname, 'attr': attr, 'outcome': outcome, 'before': before, 'after': after, 'flags': flags, 'wrote': False, 'alias': bool(alias)})
         ctx.count('V_calls')
         ctx.count('V_arrays_probed', len(flags))
@@ -565,7 +591,7 @@ def main(ctx):
         replay_static(ctx, b)
         ctx.replayed += 1
     # ---- V
-    events = sweep(ctx, 1500 if quick else 100000)
+    events = sweep(ctx, 2000 if quick else 100000)
     events += caller_write_events(ctx, 600 if quick else 12000, len(events))
     slim = [dict({k: ev[k] for k in ('id', 'kind', 'before', 'after', 'flags', 'wrote', 'alias')}, touched=bool(ev.get('touched', False))) for ev in events]
     rej = ctx.validate_events('Trace_Heap', 'Trace.cfg', slim, chunk=120)
